@@ -158,3 +158,46 @@ pub fn corpus_mutant(g: &mut Gen) -> (String, &'static str) {
         }
     }
 }
+
+/// Module-structured texts over a tiny name pool: nested `mod`s, (pub) fns, (pub) `use` of paths and
+/// wildcards, type declarations, a dsp that calls some path.  Duplicate names, re-export chains and
+/// cycles, shadowing and dangling paths are likely by construction; the texts are syntactically
+/// valid, semantically arbitrary.
+pub fn modsoup(g: &mut Gen) -> String {
+    const NAMES: &[&str] = &["a", "b", "x", "a", "b", "x", "c"];
+    fn path(g: &mut Gen) -> String {
+        let n = g.int_small(1, 3) as usize;
+        (0..n).map(|_| *g.pick(NAMES)).collect::<Vec<_>>().join("::")
+    }
+    fn expr(g: &mut Gen) -> String {
+        match g.weighted(&[3, 4, 2, 1]) {
+            0 => format!("{}.0", g.int(0, 9)),
+            1 => format!("{}()", path(g)),
+            2 => path(g),
+            _ => format!("{}() + {}.0", path(g), g.int(0, 9)),
+        }
+    }
+    fn items(g: &mut Gen, depth: u32, out: &mut String, ind: usize) {
+        let n = g.int_small(1, 4);
+        for _ in 0..n {
+            let pad = " ".repeat(ind);
+            let vis = if g.coin() { "pub " } else { "" };
+            match g.weighted(&[if depth < 2 { 4 } else { 0 }, 4, 5, 2, 1, 1]) {
+                0 => {
+                    out.push_str(&format!("{pad}{vis}mod {} {{\n", g.pick(NAMES)));
+                    items(g, depth + 1, out, ind + 2);
+                    out.push_str(&format!("{pad}}}\n"));
+                }
+                1 => out.push_str(&format!("{pad}{vis}fn {}() {{ {} }}\n", g.pick(NAMES), expr(g))),
+                2 => out.push_str(&format!("{pad}{vis}use {}\n", path(g))),
+                3 => out.push_str(&format!("{pad}{vis}use {}::*\n", path(g))),
+                4 => out.push_str(&format!("{pad}{vis}use {}::{{{}, {}}}\n", path(g), g.pick(NAMES), g.pick(NAMES))),
+                _ => out.push_str(&format!("{pad}let {} = {}\n", g.pick(NAMES), expr(g))),
+            }
+        }
+    }
+    let mut s = String::new();
+    items(g, 0, &mut s, 0);
+    s.push_str(&format!("fn dsp() {{ {} }}\n", expr(g)));
+    s
+}
